@@ -56,12 +56,24 @@ theorem toCell_set {α : Type} (dp : List (GK α)) (i : Nat) (k : GK α) :
 section
 variable {T : Type} [Inhabited T]
 
+
+/-- The generated inner loop behind a FIXED argument order.  The translator lists the loop-carried
+locals in source order under their source names, so reordering the independent statements
+`w := weightFunc(item)` / `value := valueFunc(item)` permutes the two `Int` parameters and renaming them
+changes the binder names: the first alternative (named `w`, `value`) survives a reordering, the second
+(positional) a renaming. -/
+@[reducible] def loop2C (fuel : Nat) (br : Option (List T → List T → Bool)) (item : T) (w value : Int)
+    (dp : List (GK T)) (tmp : List T) (i : Int) : Res (List (GK T) × List T × Int) := by
+  first
+  | exact Knapsack_loop2 (w := w) (value := value) fuel br item dp tmp i
+  | exact Knapsack_loop2 fuel br item w value dp tmp i
+
 /-- The inner loop `for i := maxWeight; i >= w; i--` for `w = wn ≥ 0`, started at `i = wn + n - 1` with
 all its indices inside the table: it ends normally, and the table it leaves is the model's. -/
 theorem loop2_ok (br : Option (List T → List T → Bool)) (item : T) (wn : Nat) (value : Int) :
     ∀ (n fuel : Nat) (dp : List (GK T)) (tmp : List T) (i : Int),
       n + 1 ≤ fuel → wn + n ≤ dp.length → i = (wn : Int) + (n : Int) - 1 →
-      ∃ dp' tmp', Knapsack_loop2 fuel br item (wn : Int) value dp tmp i = .ok (dp', tmp', (wn : Int) - 1)
+      ∃ dp' tmp', loop2C fuel br item (wn : Int) value dp tmp i = .ok (dp', tmp', (wn : Int) - 1)
         ∧ dp'.length = dp.length
         ∧ kInner br item wn value n (dp.map toCell) = some (dp'.map toCell) := by
   intro n
@@ -73,7 +85,7 @@ theorem loop2_ok (br : Option (List T → List T → Bool)) (item : T) (wn : Nat
     subst hi'
     have hc : ¬ ((wn : Int) - 1 ≥ (wn : Int)) := by omega
     refine ⟨dp, tmp, ?_, rfl, rfl⟩
-    unfold Knapsack_loop2
+    unfold loop2C Knapsack_loop2
     simp only [hc, decide_false, Bool.false_eq_true, if_false]
   | succ k ih =>
     intro fuel dp tmp i hf hlen hi
@@ -87,7 +99,7 @@ theorem loop2_ok (br : Option (List T → List T → Bool)) (item : T) (wn : Nat
     -- the model's step
     have hstep : ∀ dp1 : List (GK T), dp1.length = dp.length →
         kStep br item wn value k (dp.map toCell) = some (dp1.map toCell) →
-        ∀ tmp1, ∃ dp' tmp', Knapsack_loop2 f br item (wn : Int) value dp1 tmp1 (i - 1)
+        ∀ tmp1, ∃ dp' tmp', loop2C f br item (wn : Int) value dp1 tmp1 (i - 1)
             = .ok (dp', tmp', (wn : Int) - 1)
           ∧ dp'.length = dp.length
           ∧ kInner br item wn value (k + 1) (dp.map toCell) = some (dp'.map toCell) := by
@@ -98,7 +110,7 @@ theorem loop2_ok (br : Option (List T → List T → Bool)) (item : T) (wn : Nat
       simp [List.getElem?_map, List.getElem?_eq_getElem hk]
     have hcur : (dp.map toCell)[wn + k]? = some (toCell dp[wn + k]) := by
       simp [List.getElem?_map, List.getElem?_eq_getElem hwk]
-    unfold Knapsack_loop2
+    unfold loop2C Knapsack_loop2
     simp only [hc, decide_true, if_true, hiw, idx_eq dp (k : Int) k rfl hk, idx_eq dp i (wn + k) hii hwk,
       bind, pure, Res.bind_ok', slice00, List.nil_append]
     by_cases h1 : dp[k].score + value > dp[wn + k].score
@@ -146,17 +158,17 @@ theorem loop2_ok (br : Option (List T → List T → Bool)) (item : T) (wn : Nat
 /-- The inner loop when `w > i` already at the start: no iteration. -/
 theorem loop2_exit (br : Option (List T → List T → Bool)) (item : T) (w value : Int) (f : Nat)
     (dp : List (GK T)) (tmp : List T) (i : Int) (h : i < w) :
-    Knapsack_loop2 (f + 1) br item w value dp tmp i = .ok (dp, tmp, i) := by
+    loop2C (f + 1) br item w value dp tmp i = .ok (dp, tmp, i) := by
   have hc : ¬ (i ≥ w) := by omega
-  unfold Knapsack_loop2
+  unfold loop2C Knapsack_loop2
   simp only [hc, decide_false, Bool.false_eq_true, if_false]
 
 /-- The inner loop for a negative weight: the first read `dp[i-w]` is behind the table. -/
 theorem loop2_negw (br : Option (List T → List T → Bool)) (item : T) (w value : Int) (f : Nat)
     (dp : List (GK T)) (tmp : List T) (i : Int) (hw : w < 0) (hi : (dp.length : Int) ≤ i + 1) (h0 : 0 ≤ i) :
-    Knapsack_loop2 (f + 1) br item w value dp tmp i = .panic := by
+    loop2C (f + 1) br item w value dp tmp i = .panic := by
   have hc : i ≥ w := by omega
-  unfold Knapsack_loop2
+  unfold loop2C Knapsack_loop2
   simp only [hc, decide_true, if_true, idx_big dp (i - w) (by omega), bind, Res.bind_panic']
 
 /-- The outer loop over the items (`all = pre ++ rest`, `pre` already done): a negative weight in
@@ -188,32 +200,36 @@ theorem loop1_ok (br : Option (List T → List T → Bool)) (W : Nat) (wf vf : T
     have hx : all[pre.length] = x := by subst hall; simp
     have hnext : ((pre.length : Int) + 1) = ((pre ++ [x]).length : Int) := by simp
     have hall' : all = (pre ++ [x]) ++ xs := by simp [hall]
-    have hfuel : ∀ w : Int, ((W : Int) - w).toNat + 2 = (((W : Int) - w).toNat + 1) + 1 := fun _ => rfl
+    have hfuel : (W : Int).toNat + 2 = ((W : Int).toNat + 1) + 1 := rfl
     unfold Knapsack_loop1
     simp only [hc, decide_true, if_true, idx_eq all (pre.length : Int) pre.length rfl hlt, hx, bind,
       Res.bind_ok']
     by_cases hw : wf x < 0
     · -- negative weight: the inner loop panics at once
       refine ⟨fun _ => ?_, fun h => ?_⟩
-      · rw [hfuel, loop2_negw br x (wf x) (vf x) _ dp tmp (W : Int) hw (by omega) (by omega)]
+      · have hneg := loop2_negw br x (wf x) (vf x) ((W : Int).toNat + 1) dp tmp (W : Int) hw
+          (by omega) (by omega)
+        unfold loop2C at hneg
+        rw [hfuel, hneg]
         rfl
       · simp [hw] at h
     · obtain ⟨wn, hwn⟩ : ∃ wn : Nat, wf x = (wn : Int) := ⟨(wf x).toNat, by omega⟩
       have hany : (x :: xs).any (fun x => decide (wf x < 0)) = xs.any (fun x => decide (wf x < 0)) := by
         simp [hw]
       -- the inner loop ends normally with the model's table
-      have hin : ∃ dp1 tmp1 i1, Knapsack_loop2 (((W : Int) - wf x).toNat + 2) br x (wf x) (vf x) dp tmp (W : Int)
+      have hin : ∃ dp1 tmp1 i1, loop2C ((W : Int).toNat + 2) br x (wf x) (vf x) dp tmp (W : Int)
             = .ok (dp1, tmp1, i1) ∧ dp1.length = W + 1
             ∧ kInner br x wn (vf x) (W + 1 - wn) (dp.map toCell) = some (dp1.map toCell) := by
         rw [hwn]
         by_cases hbig : wn ≤ W
         · obtain ⟨dp1, tmp1, h1, h2, h3⟩ := loop2_ok br x wn (vf x) (W + 1 - wn)
-            (((W : Int) - (wn : Int)).toNat + 2) dp tmp (W : Int) (by omega) (by omega) (by omega)
+            ((W : Int).toNat + 2) dp tmp (W : Int) (by omega) (by omega) (by omega)
           exact ⟨dp1, tmp1, _, h1, by omega, h3⟩
         · have hz : W + 1 - wn = 0 := by omega
           rw [hfuel, loop2_exit br x (wn : Int) (vf x) _ dp tmp (W : Int) (by omega), hz]
           exact ⟨dp, tmp, _, rfl, hlen, rfl⟩
       obtain ⟨dp1, tmp1, i1, h1, h2, h3⟩ := hin
+      unfold loop2C at h1
       obtain ⟨ihp, iho⟩ := ih (pre ++ [x]) f dp1 tmp1 hall' (by simp at hf ⊢; omega) h2
       have htoNat : (wf x).toNat = wn := by omega
       simp only [h1, Res.bind_ok', hnext, hany]
